@@ -376,6 +376,158 @@ func (g *G) FactsAt(p Point) []Fact {
 			out = append(out, Atoms(f.Cond, f.Val)...)
 		}
 	}
+	return g.throughBoolLocals(out, p)
+}
+
+// throughBoolLocals adds, for a fact about a boolean local that was computed once (`ok := token.IsIdentifier(name)`,
+// `taken := a || b` followed by `if !ok`), the facts about the expression it was computed from - the explaining local
+// and the test written out in the `if` say the same thing. Conditions: the local is defined exactly once, by `:=`, from
+// a non-constant expression, and every variable that expression mentions is itself assigned at most once in the
+// function (so the expression has the same value where the fact is used as where it was computed, within one
+// iteration of whatever loop encloses both).
+func (g *G) throughBoolLocals(facts []Fact, at Point) []Fact {
+	if g.Info == nil || len(facts) == 0 {
+		return facts
+	}
+	var defsOf func(v types.Object) []*ast.AssignStmt
+	counted := map[types.Object][]*ast.AssignStmt{}
+	other := map[types.Object]int{}
+	scanned := false
+	scan := func() {
+		if scanned {
+			return
+		}
+		scanned = true
+		for _, b := range g.C.Blocks {
+			for _, n := range b.Nodes {
+				ast.Inspect(n, func(m ast.Node) bool {
+					switch x := m.(type) {
+					case *ast.FuncLit:
+						return false
+					case *ast.AssignStmt:
+						for _, l := range x.Lhs {
+							if id, ok := ast.Unparen(l).(*ast.Ident); ok {
+								if o := g.Info.ObjectOf(id); o != nil {
+									counted[o] = append(counted[o], x)
+								}
+							}
+						}
+					case *ast.IncDecStmt:
+						if id, ok := ast.Unparen(x.X).(*ast.Ident); ok {
+							if o := g.Info.ObjectOf(id); o != nil {
+								other[o]++
+							}
+						}
+					case *ast.RangeStmt:
+						for _, kv := range []ast.Expr{x.Key, x.Value} {
+							if id, ok := kv.(*ast.Ident); ok {
+								if o := g.Info.ObjectOf(id); o != nil {
+									other[o]++
+								}
+							}
+						}
+					case *ast.UnaryExpr:
+						if x.Op == token.AND {
+							if id, ok := ast.Unparen(x.X).(*ast.Ident); ok {
+								if o := g.Info.ObjectOf(id); o != nil {
+									other[o] += 2 // address taken: anything can assign it
+								}
+							}
+						}
+					}
+					return true
+				})
+			}
+		}
+	}
+	defsOf = func(v types.Object) []*ast.AssignStmt { scan(); return counted[v] }
+	out := facts
+	for depth := 0; depth < 2; depth++ {
+		var extra []Fact
+		for _, f := range facts {
+			id, ok := ast.Unparen(f.Cond).(*ast.Ident)
+			if !ok || f.Tag != nil {
+				continue
+			}
+			v, isVar := g.Info.ObjectOf(id).(*types.Var)
+			if !isVar || v.IsField() {
+				continue
+			}
+			if bt, isB := v.Type().Underlying().(*types.Basic); !isB || bt.Kind() != types.Bool {
+				continue
+			}
+			ds := defsOf(v)
+			if len(ds) != 1 || other[v] > 0 || ds[0].Tok != token.DEFINE || len(ds[0].Lhs) != 1 || len(ds[0].Rhs) != 1 {
+				continue
+			}
+			rhs := ds[0].Rhs[0]
+			if tv, has := g.Info.Types[rhs]; has && tv.Value != nil {
+				continue
+			}
+			stable := true
+			var vars []types.Object
+			ast.Inspect(rhs, func(m ast.Node) bool {
+				if _, isLit := m.(*ast.FuncLit); isLit {
+					stable = false
+					return false
+				}
+				if mid, isID := m.(*ast.Ident); isID {
+					if ov, isV := g.Info.ObjectOf(mid).(*types.Var); isV && !ov.IsField() {
+						if other[ov] >= 2 {
+							stable = false // address taken
+						}
+						vars = append(vars, ov)
+					}
+				}
+				return stable
+			})
+			if stable && len(vars) > 0 {
+				// nothing the expression mentions is assigned on a path from the local's definition to the point of
+				// use that does not compute the local anew
+				d := g.PointOf(ds[0])
+				if !d.Valid() {
+					stable = false
+				} else {
+					_, hit := g.Reach(d, false, Query{
+						Target: func(q Point) bool {
+							n := q.Node()
+							if n == nil || samePoint(q, d) {
+								return false
+							}
+							assigns := false
+							for _, ov := range vars {
+								if g.Assigns(n, ov) {
+									assigns = true
+								}
+							}
+							if !assigns {
+								return false
+							}
+							if samePoint(q, at) {
+								return true
+							}
+							_, reaches := g.Reach(q, false, Query{
+								Target: func(r Point) bool { return samePoint(r, at) },
+								Cut:    func(r Point) bool { return samePoint(r, d) },
+							})
+							return reaches
+						},
+						Cut: func(q Point) bool { return samePoint(q, d) },
+					})
+					stable = !hit
+				}
+			}
+			if !stable {
+				continue
+			}
+			extra = append(extra, Atoms(rhs, f.Val)...)
+		}
+		if len(extra) == 0 {
+			break
+		}
+		out = append(out, extra...)
+		facts = extra
+	}
 	return out
 }
 
